@@ -134,7 +134,7 @@ def schedule_of(beh, rnd, mode):
         elif complete == ["500"]:
             kind = "err"
         elif "ExtractOk" in acts or "HandlerEnter" in acts:
-            kind = rnd.choice(["gate", "gatedrop", "body"])
+            kind = rnd.choice(["gate", "gatedrop", "relay", "body"])
         elif ready and ready[0] == "400":
             kind = rnd.choice(["badquery", "badbody"]) if "RouteOk" in acts else rnd.choice(["notfound", "badpath"])
         elif ready:
@@ -143,7 +143,7 @@ def schedule_of(beh, rnd, mode):
             kind = rnd.choice(["gate", "gatedrop", "body", "err", "badquery", "notfound"])
         if q["partial"] == "body":
             # only requests with a body can be sent with the body incomplete
-            if kind in ("gate", "gatedrop"):
+            if kind in ("gate", "gatedrop", "relay"):
                 kind = "body"
             elif kind == "badquery":
                 kind = "badbody"
